@@ -123,7 +123,9 @@ def make_case(rng):
         enc = rng.choice(ASCII_COMPAT)
         if not encodable(body, enc):
             return None
-        doc = rng.choice(['', '<html><head>', '\n ']) + meta(rng, enc) + body
+        # the meta element may stand far into a long head (beyond any fixed prescan window)
+        pad = ''.join('<link rel="stylesheet" href="/static/css/part-%04d.css">\n' % i for i in range(rng.choice([0, 0, 0, 18, 25, 90, 400])))
+        doc = rng.choice(['', '<html><head>', '\n ']) + pad + meta(rng, enc) + body
         data = doc.encode(enc)
         xml = False
     else:
